@@ -276,12 +276,16 @@ class GraphInitializers(collections.UserDict[str, "_core.Value"]):
 
         super().__init__(data)
 
-    def _set_graph(self, value: _core.Value) -> None:
-        """Set the graph for the value."""
+    def _check_value(self, value: _core.Value) -> None:
+        """Raise if the value cannot be an initializer of the graph. Must not modify anything."""
         if value._graph is not None and value._graph is not self._graph:
             raise ValueError(
                 f"Value '{value}' is already an initializer of a different graph. Please remove the value from the previous graph first"
             )
+
+    def _set_graph(self, value: _core.Value) -> None:
+        """Set the graph for the value."""
+        self._check_value(value)
         value._is_initializer = True
         value._graph = self._graph
 
@@ -294,18 +298,15 @@ class GraphInitializers(collections.UserDict[str, "_core.Value"]):
             return
         value._graph = None
 
-    def __setitem__(self, key: str, value: _core.Value) -> None:
-        """Set an initializer for the graph."""
+    def _check_item(self, key: str, value: _core.Value) -> None:
+        """Raise if ``self[key] = value`` is invalid. Must not modify anything."""
         if not isinstance(value, _core.Value):
             raise TypeError(f"value must be a Value object, not {type(value)}")
         if not isinstance(key, str):
             raise TypeError(f"Value name must be a string, not {type(key)}")
         if key == "":
             raise ValueError("Value name cannot be an empty string")
-        if not value.name:
-            logger.info("Value %s does not have a name, setting it to '%s'", value, key)
-            value.name = key
-        elif key != value.name:
+        if value.name and key != value.name:
             raise ValueError(
                 f"Key '{key}' does not match the name of the value '{value.name}'. Please use the value.name as the key."
             )
@@ -313,6 +314,15 @@ class GraphInitializers(collections.UserDict[str, "_core.Value"]):
             raise ValueError(
                 f"Value '{value}' is produced by a node and cannot be a graph initializer"
             )
+        self._check_value(value)
+
+    def __setitem__(self, key: str, value: _core.Value) -> None:
+        """Set an initializer for the graph."""
+        # Perform all checks before modifying the value or the dictionary
+        self._check_item(key, value)
+        if not value.name:
+            logger.info("Value %s does not have a name, setting it to '%s'", value, key)
+            value.name = key
         if key in self.data:
             # If the key already exists, unset the old value
             old_value = self.data[key]
@@ -333,6 +343,25 @@ class GraphInitializers(collections.UserDict[str, "_core.Value"]):
     def add(self, value: _core.Value) -> None:
         """Add an initializer to the graph."""
         self[value.name] = value  # type: ignore[index]
+
+    def update(self, other=(), /, **kwargs) -> None:
+        """Update the initializers. All items are checked before any of them is set."""
+        items = dict(other, **kwargs)
+        keys_by_value: dict[int, str] = {}
+        for key, value in items.items():
+            self._check_item(key, value)
+            if keys_by_value.setdefault(id(value), key) != key:
+                # Only possible for an unnamed value, which takes the key as its name
+                raise ValueError(
+                    f"Value '{value}' cannot be stored under both '{keys_by_value[id(value)]}' and '{key}'"
+                )
+        for key, value in items.items():
+            self[key] = value
+
+    def __ior__(self, other):
+        """Update the initializers in place, keeping track of the ownership of the values."""
+        self.update(other)
+        return self
 
     # ------------------------------------------------------------------
     # Tensor-centric convenience accessors
